@@ -6,140 +6,6 @@ import (
 	zz "github.com/gogpu/naga/internal/zzverif"
 )
 
-// ZZHandleTable returns n symbolic expression handles (the image of an arbitrary renumbering).
-func ZZHandleTable(n int) ([]ExpressionHandle, []uint32) {
-	hs := make([]ExpressionHandle, n)
-	us := make([]uint32, n)
-	for i := range hs {
-		us[i] = zz.U32("map" + string(rune('0'+i)))
-		hs[i] = ExpressionHandle(us[i])
-	}
-	return hs, us
-}
-
-// zzStmtKinds lists every statement kind (the engine fails the run as STALE-HARNESS when a type
-// implementing ir.StatementKind is missing here). Each is filled by Havoc: all handle fields
-// symbolic, pointer-held handles present, nested blocks one statement long.
-func zzStmtKinds() []any {
-	var (
-		s1  StmtEmit
-		s2  StmtBlock
-		s3  StmtIf
-		s4  StmtSwitch
-		s5  StmtLoop
-		s6  StmtBreak
-		s7  StmtContinue
-		s8  StmtReturn
-		s9  StmtKill
-		s10 StmtBarrier
-		s11 StmtStore
-		s12 StmtImageStore
-		s13 StmtAtomic
-		s14 StmtImageAtomic
-		s15 StmtWorkGroupUniformLoad
-		s16 StmtCall
-		s17 StmtRayQuery
-		s18 StmtSubgroupBallot
-		s19 StmtSubgroupCollectiveOperation
-		s20 StmtSubgroupGather
-	)
-	return []any{s1, s2, s3, s4, s5, s6, s7, s8, s9, s10, s11, s12, s13, s14, s15, s16, s17, s18, s19, s20}
-}
-
-// ZZHavocStmt returns statement kind number k filled with arbitrary content.
-func ZZHavocStmt(k int) StatementKind {
-	switch k {
-	case 0:
-		var s StmtBlock
-		zz.Havoc("s", &s)
-		s.Block = Block{{Kind: StmtStore{Pointer: ExpressionHandle(zz.U32("s.inner.p")), Value: ExpressionHandle(zz.U32("s.inner.v"))}}}
-		return s
-	case 1:
-		var s StmtIf
-		zz.Havoc("s", &s)
-		s.Accept = Block{{Kind: StmtStore{Pointer: ExpressionHandle(zz.U32("s.acc.p")), Value: ExpressionHandle(zz.U32("s.acc.v"))}}}
-		s.Reject = Block{{Kind: StmtReturn{Value: zzEHp(ExpressionHandle(zz.U32("s.rej.v")))}}}
-		return s
-	case 2:
-		var s StmtSwitch
-		zz.Havoc("s", &s)
-		s.Cases = []SwitchCase{{Value: SwitchValueDefault{}, Body: Block{{Kind: StmtStore{Pointer: ExpressionHandle(zz.U32("s.case.p")), Value: ExpressionHandle(zz.U32("s.case.v"))}}}}}
-		return s
-	case 3:
-		var s StmtLoop
-		zz.Havoc("s", &s)
-		s.Body = Block{{Kind: StmtStore{Pointer: ExpressionHandle(zz.U32("s.body.p")), Value: ExpressionHandle(zz.U32("s.body.v"))}}}
-		s.Continuing = Block{{Kind: StmtStore{Pointer: ExpressionHandle(zz.U32("s.cont.p")), Value: ExpressionHandle(zz.U32("s.cont.v"))}}}
-		return s
-	case 4:
-		var s StmtReturn
-		zz.Havoc("s", &s)
-		return s
-	case 5:
-		var s StmtStore
-		zz.Havoc("s", &s)
-		return s
-	case 6:
-		var s StmtImageStore
-		zz.Havoc("s", &s)
-		return s
-	case 7:
-		var s StmtAtomic
-		zz.Havoc("s", &s)
-		s.Fun = AtomicExchange{Compare: zzEHp(ExpressionHandle(zz.U32("s.cmp")))}
-		return s
-	case 8:
-		var s StmtWorkGroupUniformLoad
-		zz.Havoc("s", &s)
-		return s
-	case 9:
-		var s StmtCall
-		zz.Havoc("s", &s)
-		return s
-	case 10:
-		var s StmtBarrier
-		zz.Havoc("s", &s)
-		return s
-	case 11:
-		return StmtBreak{}
-	case 12:
-		return StmtContinue{}
-	case 13:
-		var s StmtImageAtomic
-		zz.Havoc("s", &s)
-		return s
-	case 14:
-		var s StmtRayQuery
-		zz.Havoc("s", &s)
-		switch zz.Choice("rq", 3) {
-		case 0:
-			s.Fun = RayQueryInitialize{AccelerationStructure: ExpressionHandle(zz.U32("s.as")), Descriptor: ExpressionHandle(zz.U32("s.desc"))}
-		case 1:
-			s.Fun = RayQueryProceed{Result: ExpressionHandle(zz.U32("s.res"))}
-		default:
-			s.Fun = RayQueryGenerateIntersection{HitT: ExpressionHandle(zz.U32("s.hit"))}
-		}
-		return s
-	case 15:
-		var s StmtSubgroupBallot
-		zz.Havoc("s", &s)
-		return s
-	case 16:
-		var s StmtSubgroupCollectiveOperation
-		zz.Havoc("s", &s)
-		return s
-	case 17:
-		var s StmtSubgroupGather
-		zz.Havoc("s", &s)
-		s.Mode = GatherShuffleXor{Mask: ExpressionHandle(zz.U32("s.mask"))}
-		return s
-	default:
-		return StmtKill{}
-	}
-}
-
-const ZZNumHavocStmts = 19
-
 // Remap completeness: for every statement kind and every renumbering of the expression arena,
 // the inliner's statement remapper maps exactly the expression handles (also those held
 // through pointers, in nested blocks and in atomic functions) and changes nothing else.
@@ -175,5 +41,25 @@ func ZZ_C13_compact_remap_statements() {
 	blk := []Statement{st}
 	remapStmtExprHandles(blk, table)
 	zz.Assert(zz.SameState(blk[0], want), "compaction remapper: a handle was not mapped (or something else changed)")
+	zz.Reach("end")
+}
+
+// Same for the statement remapper that CompactExpressions itself uses (it also rewrites emit
+// ranges; with every expression marked used nothing is dropped, so every other statement kind
+// must come out with exactly its handles mapped).
+func ZZ_C13_compact_expressions_remap_statements() {
+	k := zz.Choice("kind", ZZNumHavocStmts)
+	table, raw := ZZHandleTable(4)
+	st := Statement{Kind: ZZHavocStmt(k)}
+	want := zz.MapHandles(st, "ir.ExpressionHandle", raw)
+	used := make([]bool, len(table))
+	for i := range used {
+		used[i] = true
+	}
+	out := remapStmtExprHandlesCompact([]Statement{st}, table, used)
+	zz.Assert(len(out) == 1, "compaction dropped or duplicated a statement although every expression is used")
+	if len(out) == 1 {
+		zz.Assert(zz.SameState(out[0], want), "CompactExpressions remapper: a handle was not mapped (or something else changed)")
+	}
 	zz.Reach("end")
 }
